@@ -435,3 +435,11 @@ def q1(ctx):
     obs.append(ctx.ob(ok, cq.qualname, cq.where, "calendar_query iterates store.iter_with_filter(filter)", "store.iter_with_filter(filter=filter)",
                       "CalendarCollection.calendar_query no longer applies the filter through store.iter_with_filter"))
     return obs
+
+
+@rule("C11", "I1", floor=7, kind="N",
+      desc="queries answered from the index see complete, current values (same obligations as C10/X4, X5, X6): "
+           "otherwise a matching resource is silently missing from a calendar-query")
+def i1(ctx):
+    from .c10 import x4, x5, x6
+    return list(x4(ctx)) + list(x5(ctx)) + list(x6(ctx))
